@@ -864,7 +864,8 @@ export class RegexRuntype extends BaseRuntype {
     return this.description;
   }
   schema(_ctx: SchemaContext): JSONSchema7 {
-    return annotateSchema(this.metadata, { type: "string", pattern: this.description });
+    // the description is the TypeScript spelling of the template literal; JSON Schema needs the regular expression
+    return annotateSchema(this.metadata, { type: "string", pattern: this.regex.source });
   }
   validate(_ctx: ValidateContext, input: unknown): boolean {
     if (typeof input === "string") {
